@@ -32,12 +32,16 @@ def main():
     hs_m, total_m = sgcommon.histories(ctx, "SymbolGraph_gen_c13m.cfg",
                                        lambda h: keep(h) and any(s.get("mode") for s in h), 8000 if thorough else 1500)
     ctx.cov["histories_in_bound_creation_modes_family"] = total_m
-    hs = hs + hs_b + hs_m
+    # fourth family: the query object is built by one step and evaluated by a later one (instances created in between)
+    hs_d, total_d = sgcommon.histories(ctx, "SymbolGraph_gen_c13d.cfg",
+                                       lambda h: any(s["a"] == "evaldeclared" and (s["must"] or s["may"]) for s in h), 8000 if thorough else 1200)
+    ctx.cov["histories_in_bound_declare_then_evaluate_family"] = total_d
+    hs = hs + hs_b + hs_m + hs_d
     cases = [{"mode": "c13", "h": h} for h in hs]
     cases += [{"mode": "c13", "h": h, "falsy": True} for h in hs[::7]]      # instances that are falsy objects while alive
     results = replay("sg", cases)
     ctx.replayed = len(cases)
-    ctx.exhaustive = len(hs) == total + total_b + total_m
+    ctx.exhaustive = len(hs) == total + total_b + total_m + total_d
     ctx.cov["histories_in_bound"] = total
     names = [f"h{i}" for i in range(len(cases))]
     reuse = 0
@@ -52,7 +56,7 @@ def main():
                 tracked = set()
             elif m["a"] == "relate":
                 tracked |= {m["p"], m["c"]}
-            elif m["a"] == "query":
+            elif m["a"] in ("query", "evaldeclared"):
                 problems = sgcommon.judge_query(m["c"], set(o["census_before"]), tracked, cls, o)
                 if problems and bad is None:
                     bad = {"query": m, "observed": o, "problems": problems}
